@@ -305,3 +305,14 @@ mod tests {
         );
     }
 }
+
+/// Verification hooks: thin public wrappers over private functions. No behavior of their own.
+#[cfg(feature = "verif")]
+#[doc(hidden)]
+pub mod verif_package_type {
+    use super::*;
+
+    pub fn fix_pypi_name(name: &mut SmallString) {
+        super::fix_pypi_name(name)
+    }
+}
